@@ -240,7 +240,9 @@ def body_energy(case, ctx):
         e8, _ = envelope(ch, t0, r0, eps / 8, 8 * n)
         levels.append(e8)
         if np.isfinite(e8) and e8 > floor:
-            order = max(order, float(np.log2(e4 / e8)))
+            # the envelope (a maximum over the steps of a trajectory) does not shrink perfectly smoothly: the verdict is the better
+            # of the finest pair and the mean order over all four levels (a first-order scheme gives ~1 on both)
+            order = max(order, float(np.log2(e4 / e8)), float(np.log2(e1 / e8)) / 3.0)
     ctx.add("order_sum", order)
     ctx.add("order_n", 1)
     tag = cls_tag(ch, reflecting)
